@@ -104,7 +104,7 @@ def gen_registry_files(ctx, n_groups):
     types = []
     rate_pairs, lite, tables = [], [], []
     for g in range(n_groups):
-        reg = gen_decl.gen_registry(seed * 131 + g, prefix='G')
+        reg = gen_decl.gen_registry(seed * 131 + g, prefix='G', big=(g == 0))
         twin = gen_decl.permuted(reg, seed * 131 + g)
         ren = {t['T']: t['T'] + 'P' for t in twin['types']}
         for t in reg['types']:
